@@ -54,6 +54,9 @@ void log(const std::string& s);              // append to the observation log
 int self();                                  // id of calling thread (0 = main), -1 if unregistered
 std::vector<uint32_t> clock();               // vector clock of the calling thread
 bool active();
+// Restrict exploration to a region of interest: while exploring is false, choice points are not
+// recorded (the default alternative is taken), so they are neither branched on nor part of a prefix.
+void setExploring(bool on);
 
 struct Stats { int64_t locks = 0, unlocks = 0, waits = 0, signals = 0, broadcasts = 0, creates = 0, joins = 0, yields = 0, hookPoints = 0; };
 Stats& stats();
